@@ -84,9 +84,52 @@ def run(tier, seed):
                           {'registry_type': names[k], 'resolver_entry': o, 'replay': 'vlsp-harness resolvers'})
     rep.cov['streams']['resolvers'] = {'rows': seen}
     rep.cov['evaluations'] += seen
+    # gating on the in-process LspService: a document gets diagnostics AND code actions when the reference classification
+    # (Spec.UriClass, evaluated in Coq) says its URI names a supported manifest, and neither of them otherwise
+    from .c14 import DOCS
+    import json as _json
+    KEY_OF = {0: 'github', 1: 'npm', 2: 'crates', 3: 'goProxy', 4: 'pnpmCatalog', 5: 'jsr', 6: 'pypi'}
+    guris = ['file:///w/package.json', 'file:///a/b/Cargo.toml', 'file:///w/go.mod', 'file:///w/pyproject.toml', 'file:///w/pnpm-workspace.yaml', 'file:///w/deno.json',
+             'file:///w/deno.jsonc', 'file:///w/.github/workflows/ci.yml', 'file:///w/.github/actions/x/action.yaml', 'file:///src/acme/.github/.github/workflows/ci.yml',
+             'file:///w/mypackage.json', 'file:///w/package.json.bak', 'file:///w/package.json?ref=main', 'file:///w/package.json#L1', 'file:///w/notes.txt#/package.json',
+             'file:///w/go.mod.bak', 'file:///w/x.github/workflows/ci.yml', 'file:///w/.github/workflows/readme.md', 'file:///w/.github/ci.yml', 'file:///w/Cargo.toml.orig',
+             'file:///w/notes.txt', 'file:///w/cargo.toml', 'file:///w/PACKAGE.JSON', 'file:///w/sub/dir/package.json', 'file:///w/pnpm-workspace.yml', 'file:///w/Cargo.toml?x=1']
+    codes = C.coq_eval_show(PID, 'gate', 'From VL Require Import Lib.Bytes Lib.Reg Spec.UriClass.', [f'opt_reg_code (classify {C.g_bytes(u)})' for u in guris])
+    scripts, gmeta = [], []
+    for u, code in zip(guris, codes or []):
+        code = int(str(code).split(':')[0].replace('%N', '').strip())
+        if code in KEY_OF:
+            k = KEY_OF[code]
+        else:
+            lu = u.lower()
+            k = 'goProxy' if 'go.mod' in lu else 'crates' if 'cargo' in lu else 'github' if '.github' in lu else 'pnpmCatalog' if 'pnpm' in lu else 'npm'
+        _, text, reg, pkg = DOCS[k]
+        line = [i for i, l in enumerate(text.split('\n')) if '1.0.0' in l][0]
+        col = text.split('\n')[line].index('jsr:') + 1 if k == 'jsr' else text.split('\n')[line].index('1.0.0') + 1
+        vprefix = 'v' if k in ('goProxy', 'github') else ''
+        scripts.append({'registry': {}, 'prefill': [{'name': pkg, 'reg': reg, 'vs': [vprefix + '1.0.0', vprefix + '1.0.1', vprefix + '2.0.0']}], 'config': 'none', 'gated': False,
+                        'steps': [{'op': 'open', 'uri': u, 'text': text}, {'op': 'action', 'uri': u, 'line': line, 'character': col}]})
+        gmeta.append((u, code in KEY_OF, k))
+    gouts, err = C.run_harness('backend', 0, 0, stdin='\n'.join(_json.dumps(x) for x in scripts) + '\n', timeout=3000)
+    if err:
+        rep.broke('harness backend (gating)', err)
+    ngate = 0
+    for (u, sup, k), o in zip(gmeta, gouts or []):
+        st = o['out']['steps']
+        pubs = [t for t in st[0]['traffic'] if t['kind'] == 'publish']
+        acts = st[1]['result']
+        offered = isinstance(acts, dict) and acts.get('ok') not in (None, [])
+        desc = {'uri': u, 'content_of': k, 'publications': pubs, 'code_action_result': acts}
+        ngate += 1
+        if sup and (not pubs or not pubs[-1]['diags'] or not offered):
+            rep.violation(f'{u} names a supported manifest but did not get both diagnostics and code actions for its outdated dependency', desc)
+        if not sup and (pubs or offered):
+            rep.violation(f'{u} does not name a supported manifest but received ' + ('diagnostics' if pubs else 'code actions'), desc)
+    rep.cov['streams']['gating'] = {'uris': ngate}
+    rep.cov['evaluations'] += ngate
     if tier == 'thorough' and proofs_ok:
         C.coqchk(rep, ['VL.Props.C16'])
     rep.assumptions = ['URIs are arbitrary byte strings in the theorems; the harness feeds valid UTF-8 only (Rust &str)',
                        'match_indices yields every occurrence of the directory patterns (they cannot overlap themselves); modelled as all occurrences',
-                       'gating of diagnostics / code actions on the classification is covered by the backend model (C14/C18 checks), not here']
+                       'gating of diagnostics / code actions on the classification: exercised on the in-process LspService for a fixed list of supported, look-alike and query / fragment URIs']
     return rep.finish()
